@@ -1,11 +1,12 @@
 (* Props/C03Hist.v — wave 5: histories on ONE sparse object (operator, in-place element assignment that may grow the shape, operator
    again).  Only statements, `exact`, Print Assumptions.  sp_assign (Model/C03Hist.v) models S[sub] = v for one full-width subscript
-   (pyttb.sptensor._set_subscripts: overwrite in place / delete / append, shape = max(dim, sub + 1) in every case); the correspondence
+   (pyttb.sptensor.__setitem__ in both spellings, _set_subtensor with a scalar and _set_subscripts with a 1 x N array: overwrite in place /
+   delete / append, shape = max(dim, sub + 1) in every case); the correspondence
    cases hist:<op0>,<op1> require the stored lists of the object after its history to BE sp_assigns of the literal initial operand
    (hist_state_ok) and every request to denote the element-wise specification on that tensor. *)
 From Coq Require Import List Arith Bool ZArith.
-From PV Require Import Base.Index Np.Array Model.Sparse Model.Harness Model.C03Ops Model.C03Gen Model.C03Chk Model.C03Hist
-                       Proofs.C03Lemmas Proofs.C03Hist.
+From PV Require Import Base.Index Np.NpZ Np.Array Gen.GenUtils Model.Sparse Model.Harness Model.C03Ops Model.C03Gen Model.C03Chk Model.C03Hist
+                       Model.C03HistGen Proofs.C03Lemmas Proofs.C03GenProofs Proofs.C03Hist Proofs.C03HistGen.
 Import ListNotations.
 
 Section C03Hist.
@@ -28,6 +29,13 @@ Theorem C03_assigns_wf : forall (l : list (idx * V)) (A : sparse V), wf_sp isz A
   forall i, inb (sshape A) i = true -> inb (sshape (sp_assigns isz A l)) i = true.
 Proof. exact (sp_assigns_wf v0 isz isz_spec). Qed.
 
+(* a whole history denotes the dense array after the same history of point updates: at every position the LAST assignment to it
+   wins, every other position keeps its value (positions outside the old shape: 0) *)
+Theorem C03_assigns_den : forall (l : list (idx * V)) (A : sparse V), wf_sp isz A ->
+  Forall (fun p => length (fst p) = length (sshape A)) l ->
+  forall i, den_sp v0 (sp_assigns isz A l) i = hist_lookup l i (den_sp v0 A i).
+Proof. exact (sp_assigns_den v0 isz isz_spec). Qed.
+
 (* a request after the assignment marks EVERY position of the GROWN shape by the value the tensor holds now (the positions added by
    the growth included): logical_not, and every comparison with a scalar (== != < <= > >= are instances of cmp) *)
 Theorem C03_not_after_assign : forall (one : V), one <> v0 -> forall (A : sparse V) (sub : idx) (v : V),
@@ -47,8 +55,18 @@ Theorem C03_cmp_scalar_after_assign : forall (one : V), one <> v0 -> forall (cmp
 Proof. exact (cmp_scalar_after_assign v0 isz isz_spec). Qed.
 End C03Hist.
 
+(* tie A: S[i1, ..., iN] = v for a nonzero scalar (sptensor._set_subtensor, Case I(b)ii), transliterated over tt_intersect_rows /
+   tt_setdiff_rows as REGENERATED from pyttb_utils.py on every run (Model/C03HistGen.v), returns exactly the lists of sp_assign, for
+   every structurally well-formed operand of order N >= 1 in any stored order and every full-width subscript inside or outside the shape *)
+Theorem C03_assign_gen : forall (V : Type) (isz : V -> bool) (N : nat), (0 < N)%nat -> forall (A : sparse V) (sub : idx) (v : V),
+  wf_struct A -> width N (ssubs A) -> length sub = N -> isz v = false ->
+  impl_set_elem_gen A sub v = Ok (sp_assign isz A sub v).
+Proof. exact @impl_set_elem_gen_eq. Qed.
+
 Print Assumptions C03_assign.
+Print Assumptions C03_assign_gen.
 Print Assumptions C03_assigns_wf.
+Print Assumptions C03_assigns_den.
 Print Assumptions C03_not_after_assign.
 Print Assumptions C03_cmp_scalar_after_assign.
 
